@@ -64,6 +64,52 @@ Theorem C08_bin_search_exact_if_monotone : forall fuel ex lo hi T h,
 Proof. exact bin_search_monotone. Qed.
 Print Assumptions C08_bin_search_exact_if_monotone.
 
+(* no false "gas required exceeds allowance": when the call succeeds with the highest gas limit that may be
+   tried (and no probe is a consensus error) an estimate is returned, within (20999, cap] *)
+Theorem C08_estimate_complete : forall ex gas_cap args_gas max_gas,
+  TxGas <= gas_cap -> 2 * est_hi gas_cap args_gas max_gas <= U64 ->
+  (forall g, ex g <> ExErr) -> ex (est_hi gas_cap args_gas max_gas) = ExOk ->
+  exists g, estimate_gas ex gas_cap args_gas max_gas = EstOk g /\ g <= est_hi gas_cap args_gas max_gas /\
+            (TxGas <= est_hi gas_cap args_gas max_gas -> TxGas <= g).
+Proof. exact estimate_complete. Qed.
+Print Assumptions C08_estimate_complete.
+
+(* an estimate never exceeds the highest gas limit that may be tried, which never exceeds the node's gas cap *)
+Theorem C08_estimate_le_cap : forall ex gas_cap args_gas max_gas g,
+  2 * est_hi gas_cap args_gas max_gas <= U64 ->
+  estimate_gas ex gas_cap args_gas max_gas = EstOk g -> g <= est_hi gas_cap args_gas max_gas.
+Proof. exact estimate_le_cap. Qed.
+Print Assumptions C08_estimate_le_cap.
+
+Theorem C08_est_hi_le_gas_cap : forall gas_cap args_gas max_gas,
+  gas_cap <> 0 -> est_hi gas_cap args_gas max_gas <= gas_cap.
+Proof. exact est_hi_le_gas_cap. Qed.
+Print Assumptions C08_est_hi_le_gas_cap.
+
+(* histories: queries, trial executions and delivered transactions interleaved in any order.  Erasing every
+   query and trial execution from the history changes neither the committed state nor the result of any
+   delivered transaction *)
+Theorem C08_history_queries_erasable : forall R (h : list (hop R)) ctx, Forall hop_commit_free h ->
+  h_state (run_hist ctx h) = h_state (run_hist ctx (filter is_deliver h)) /\
+  h_delivered (run_hist ctx h) = h_delivered (run_hist ctx (filter is_deliver h)).
+Proof. exact run_hist_erase. Qed.
+Print Assumptions C08_history_queries_erasable.
+
+(* the answer of a query anywhere in a history is a function of the state produced by the transactions
+   delivered before it and of the request *)
+Theorem C08_history_query_answer : forall R (pre post : list (hop R)) p ctx, Forall hop_commit_free pre ->
+  nth_error (h_answers (run_hist ctx (pre ++ HQuery p :: post))) (length (h_answers (run_hist ctx pre))) =
+  Some (run_no_commit (h_state (run_hist ctx (filter is_deliver pre))) [] p).
+Proof. exact history_query_answer. Qed.
+Print Assumptions C08_history_query_answer.
+
+(* after any history, a query followed at once by the delivery of the same call: same result *)
+Theorem C08_history_predicts : forall R (pre post : list (hop R)) p d ctx, commit_free p ->
+  let r := run_hist (h_state (run_hist ctx pre)) (HQuery p :: HDeliver p d :: post) in
+  hd_error (h_answers r) = hd_error (h_delivered r).
+Proof. exact history_predicts. Qed.
+Print Assumptions C08_history_predicts.
+
 (* non-vacuity: a program that creates, writes through "another module", self-destructs and reverts;
    a non-monotone executable for which the estimate is still a success; error classes are reachable *)
 Definition ex_prog : prog (option val * N) :=
@@ -85,4 +131,20 @@ Example C08_example :
   estimate_gas (fun _ => ExOk) 18446744073709551615 None 0 = EstOk 10499.
 Proof.
   split; [repeat (constructor; intros)|]. vm_compute. repeat split; reflexivity.
+Qed.
+
+(* a history with two deliveries, queries in between and a trial execution; hypotheses of estimate_complete *)
+Definition ex_hist : list (hop (option val * N)) :=
+  [HQuery ex_prog; HDeliver ex_prog []; HTrial [(1, Some 77)] ex_prog; HQuery (PRead 1 (fun v => PRet (v, 0)));
+   HDeliver (PDo (KvSet 1 11) (fun _ => PRead 1 (fun v => PRet (v, 1)))) []; HQuery (PRead 1 (fun v => PRet (v, 2)))].
+Example C08_example_history :
+  Forall hop_commit_free ex_hist /\
+  h_answers (run_hist (fun _ => None) ex_hist) = [(Some 20, 7); (Some 20, 7); (Some 10, 0); (Some 11, 2)] /\
+  h_delivered (run_hist (fun _ => None) ex_hist) = [(Some 20, 7); (Some 11, 1)] /\
+  h_state (run_hist (fun _ => None) ex_hist) 1 = Some 11 /\
+  TxGas <= 100000 /\ 2 * est_hi 100000 None 0 <= U64 /\ (forall g, ex_nonmono g <> ExErr) /\ ex_nonmono (est_hi 100000 None 0) = ExOk.
+Proof.
+  split; [repeat constructor; repeat (constructor; intros)|].
+  repeat split; try (vm_compute; congruence).
+  intros g. unfold ex_nonmono. destruct ((55000 <=? g) && (g <? 62000)); [discriminate|]. destruct (90000 <=? g); discriminate.
 Qed.
